@@ -886,6 +886,10 @@ func (e *Env) evalCall(n *ECall) SVal {
 	case "round":
 		v := e.concrete(arg(0))
 		return SVal{T: T(SF64, "(fp.roundToIntegral RNA %s)", v.T.S), Ty: v.Ty}
+	case "floor", "ceil", "trunc":
+		v := e.concrete(arg(0))
+		mode := map[string]string{"floor": "RTN", "ceil": "RTP", "trunc": "RTZ"}[n.Fn]
+		return SVal{T: T(SF64, "(fp.roundToIntegral %s %s)", mode, v.T.S), Ty: v.Ty}
 	case "isNaN":
 		return boolV(T(SBool, "(fp.isNaN %s)", arg(0).T.S))
 	case "cnt":
